@@ -276,6 +276,45 @@ pub fn wide_union(rep: &mut Report, prop: &str, n: u32, seed: u64) {
     }
 }
 
+/// many operands AND long words: the union over k < n of f_k . x^len . l_k (first and last letters all different)
+pub fn wide_long_words(rep: &mut Report, n: u32, len: u32, seed: u64) {
+    const F: u32 = 2000;
+    const L: u32 = 60_000;
+    let case = format!("wide-long {} {}", n, len);
+    let r = guard(|| -> Result<(), String> {
+        let mut m = ReManager::new();
+        let x = m.char(0x78);
+        let xs = m.exp(x, len);
+        let mut ops: Vec<RegLan> = Vec::new();
+        for k in crate::gen::reprog::wide_order(n) {
+            let (a, b) = (m.char(F + k), m.char(L + k));
+            ops.push(m.concat_list([a, xs, b].into_iter()));
+        }
+        let e = m.union_list(ops.iter().copied());
+        rep.inc("wide_unions_of_long_words_built");
+        let word = |k: u32, l: u32, j: u32| -> Vec<u32> { std::iter::once(F + k).chain(std::iter::repeat(0x78).take(l as usize)).chain(std::iter::once(L + j)).collect() };
+        let ks: Vec<u32> = (0..n).filter(|k| k % 7 == 0 || k + 3 >= n || *k < 3).collect();
+        for &k in &ks {
+            rep.count("wide_membership_answers", 4);
+            for (w, want) in [(word(k, len, k), true), (word(k, len, (k + 1) % n), false), (word(k, len - 1, k), false), (word(k, len + 1, k), false)] {
+                let got = m.str_in_re(&sw(&w), e);
+                if got != want {
+                    return Err(format!("union over k < {} of f_k . x^{} . l_k: str_in_re(f_{} x^{} l_{}) = {}, expected {}", n, len, k, w.len() - 2, w[w.len() - 1] - L, got, want));
+                }
+            }
+        }
+        if m.is_empty_re(e) {
+            return Err("is_empty_re of the union of long words is true".into());
+        }
+        Ok(())
+    });
+    match r {
+        Ok(Ok(())) => {}
+        Ok(Err(e)) => viol(rep, "wide", "long-words", e, seed, &case),
+        Err(msg) => viol(rep, "wide", "panic", format!("panicked on a union of {} words of {} characters: {}", n, len, msg), seed, &case),
+    }
+}
+
 /// balanced tree of (r1 + r2)? over n alternatives c_i . tail(i): n derivative classes in ONE term, five
 /// derivatives in all ({""} + {c_i x | i < 2^16} + {c_i y | i >= 2^16})
 pub fn wide_tree(rep: &mut Report, prop: &str, n: u32, seed: u64) {
@@ -1013,6 +1052,13 @@ pub fn replay(text: &str, seed: u64, rep: &mut Report) -> bool {
         ["wide-union", p, n] => {
             if let Ok(n) = n.parse::<u32>() {
                 wide_union(rep, p, n, seed);
+                return true;
+            }
+            false
+        }
+        ["wide-long", n, l] => {
+            if let (Ok(n), Ok(l)) = (n.parse::<u32>(), l.parse::<u32>()) {
+                wide_long_words(rep, n, l, seed);
                 return true;
             }
             false
